@@ -197,7 +197,8 @@ Definition xm_get (snap : list kv) (st : xbuf) (k : key) : option val := m_get s
 (* ---------- thin outer layer: key length limit, Dirty, SnapshotSeqNo ---------- *)
 (* art.Set rejects a key longer than MaxKeyLen = 65535 before anything else (ErrKeyTooLarge; UpdateFlags drops
    the error); ART.dirty and ART.SnapshotSeqNo are updated exactly where art.go updates them. They are
-   modelled and compared with the code on every run; no theorem is stated about them. *)
+   compared with the code on every run; the theorems about this layer are in PropsY.v (C07_y_value_part, C07_dirty,
+   C07_dirty_monotone, C07_clean_buffer_may_hold_writes, C07_snapshot_seq, C07_write_status). *)
 Record ybuf := mk_ybuf { y_x : xbuf; y_dirty : bool; y_sseq : N }.
 Definition ybuf_empty : ybuf := mk_ybuf xbuf_empty false 0.
 Definition max_key_len : N := 65535.
@@ -254,3 +255,7 @@ Definition yrun (ops : list xop) (st : ybuf) : ybuf := fold_left (fun s o => fst
    (the hypothesis `legal` of the Dirty / SnapshotSeqNo theorems; checked on every replayed program) *)
 Definition revert_legalb (b : mbuf) (n : nat) : bool :=
   Nat.leb (hd O (b_stages b)) n && Nat.leb n (length (b_log b)).
+
+(* the versions of a key in the value log, newest first (x_history st k = b_history (x_b st) k) *)
+Definition b_history (b : mbuf) (k : key) : list val :=
+  map snd (filter (fun e => bytes_eqb (fst e) k) (b_log b)).
